@@ -306,6 +306,102 @@ fn huge_pieces(acc: &mut Acc) {
     acc.sample(|| json!({"huge_piece_lengths": "2^31-1, 2^31, 2^31+5, 2^32+7 (thorough: also 2^32-1, 2^32, 2^33+3), each as first / middle / last of three pieces", "method": "one 1 MiB buffer passed as thousands of fragments into a counting writer"}));
 }
 
+// ---------------------------------------------------------------------------
+// end-to-end form of "bytes can never be shifted between footer and assertion": on EVERY back end
+// (also those whose version has no implicit assertion - they must refuse one, not fold it into
+// another piece), a token sealed for (footer F, assertion A) is never accepted for another split
+// (F', A') of the same byte string F || A.
+
+#[derive(Clone, Debug, Serialize, Deserialize)]
+struct ShiftCase {
+    public: bool,
+    key: u64,
+    msg_len: u16,
+    #[serde(with = "crate::util::hexser")]
+    footer: Vec<u8>,
+    #[serde(with = "crate::util::hexser")]
+    assertion: Vec<u8>,
+}
+
+fn shift_case<B: crate::backends::Backend>(c: &ShiftCase, acc: &mut Acc) -> R {
+    use crate::backends::*;
+    use paseto_core::tokens::{SealedToken, UnsealedToken};
+    use paseto_core::validation::NoValidation;
+    use paseto_core::version::{Local, Public};
+    let name = B::NAME;
+    let ks = KeySeed::from_u64(c.key % 16);
+    let msg = vec![0x6du8; c.msg_len as usize];
+    crate::rng::reseed_case(hash_of(&(c.key, &c.footer, &c.assertion)));
+    // seal with the assertion if the back end takes one, else without
+    let seal = |aad: &[u8]| -> Result<String, paseto_core::PasetoError> {
+        if c.public {
+            UnsealedToken::<V<B>, Public, Raw>::new(Raw(msg.clone())).with_footer(c.footer.clone()).seal(&secret_key::<B>(&ks), aad).map(|t| t.to_string())
+        } else {
+            UnsealedToken::<V<B>, Local, Raw>::new(Raw(msg.clone())).with_footer(c.footer.clone()).seal(&local_key::<B>(&ks), aad).map(|t| t.to_string())
+        }
+    };
+    let (text, sealed_aad): (String, Vec<u8>) = match seal(&c.assertion) {
+        Ok(t) => (t, c.assertion.clone()),
+        Err(_) if !c.assertion.is_empty() => {
+            acc.class("shift:assertion-refused-at-seal");
+            (seal(&[]).unwrap_or_else(|e| library_refused("sealing without an assertion", &e)), Vec::new())
+        }
+        Err(e) => library_refused("sealing without an assertion", &e),
+    };
+    let unseal = |text: &str, aad: &[u8]| -> bool {
+        if c.public {
+            text.parse::<SealedToken<V<B>, Public, Raw, Vec<u8>>>().and_then(|t| t.unseal(&secret_key::<B>(&ks).public_key(), aad, &NoValidation::dangerous_no_validation())).is_ok()
+        } else {
+            text.parse::<SealedToken<V<B>, Local, Raw, Vec<u8>>>().and_then(|t| t.unseal(&local_key::<B>(&ks), aad, &NoValidation::dangerous_no_validation())).is_ok()
+        }
+    };
+    let purpose = if c.public { "public" } else { "local" };
+    ensure!(unseal(&text, &sealed_aad), format!("C15/{name}/{purpose}/shift/control-rejected"), "the token does not unseal under the footer and assertion it was sealed with");
+    // every other split of F || A
+    let mut whole = c.footer.clone();
+    whole.extend_from_slice(&sealed_aad);
+    let head: String = {
+        let mut it = text.splitn(4, '.');
+        let (a, b, p) = (it.next().unwrap_or(""), it.next().unwrap_or(""), it.next().unwrap_or(""));
+        format!("{a}.{b}.{p}")
+    };
+    let mut tried = 0u64;
+    for cut in 0..=whole.len() {
+        if cut == c.footer.len() {
+            continue;
+        }
+        let (f2, a2) = whole.split_at(cut);
+        let t2 = if f2.is_empty() { head.clone() } else { format!("{head}.{}", crate::util::b64_encode(f2)) };
+        tried += 1;
+        if unseal(&t2, a2) {
+            return Err(Fail::new(
+                format!("C15/{name}/{purpose}/shift/footer-assertion-boundary-moved/accepted"),
+                format!("a token sealed with a {}-byte footer and a {}-byte assertion is accepted with a {}-byte footer and a {}-byte assertion (same concatenation)", c.footer.len(), sealed_aad.len(), f2.len(), a2.len()),
+            ));
+        }
+    }
+    acc.evals_n(tried);
+    acc.nt(hash_of(&(name, c.public, c.footer.len(), sealed_aad.len())));
+    acc.class(if sealed_aad.is_empty() { "shift:sealed-without-assertion" } else { "shift:sealed-with-assertion" });
+    Ok(())
+}
+
+fn shifts_for<B: crate::backends::Backend>(out: &mut Vec<SubCheck>) {
+    let cases = match B::NAME {
+        "paseto-v1" => (12, 150),
+        "paseto-v3" => (40, 600),
+        "paseto-v3-aws-lc" => (80, 1200),
+        _ => (150, 3000),
+    };
+    out.push(SubCheck::prop(
+        format!("c15.footer-assertion-shifts/{}", B::NAME),
+        4,
+        cases,
+        |_t| (any::<bool>(), any::<u64>(), prop_oneof![Just(0u16), 1u16..200], proptest::collection::vec(any::<u8>(), 0..12), proptest::collection::vec(any::<u8>(), 0..8)).prop_map(|(public, key, msg_len, footer, assertion)| ShiftCase { public, key, msg_len, footer, assertion }),
+        |c: &ShiftCase, acc: &mut Acc| shift_case::<B>(c, acc),
+    ));
+}
+
 pub fn def() -> PropertyDef {
     let mut subs = vec![SubCheck::prop("c15.pae", 1, (20000, 400000), |_t| strat(), run_case)];
     subs.push(SubCheck::custom("c15.huge-pieces", 6, huge_pieces, |v: &serde_json::Value, _acc: &mut Acc| {
@@ -313,10 +409,11 @@ pub fn def() -> PropertyDef {
         huge_case(&c)
     }));
     crate::for_backends!(B => writers_for::<B>(&mut subs));
+    crate::for_backends!(B => shifts_for::<B>(&mut subs));
     PropertyDef {
         id: "C15",
         level: "exploration",
-        rule: "proptest cases: piece count 0..8 (one const-generic instantiation per N) x 0..4 fragments per piece x fragment lengths 0..600; oracle: output equals the reference PAE of the concatenated pieces, the reference PAE parser recovers exactly the piece list (injectivity), a recording streaming writer and the &mut adapter receive the same bytes, re-fragmenting does not change the output, and moving 1-3 bytes across a piece boundary always changes it; pieces of 2^31-1 .. 2^32+7 bytes (thorough 2^33+3), streamed as thousands of fragments of one buffer into a counting writer, carry their true 64-bit length and the stream has the prescribed total length; the back ends' private digest / MAC / signature writer adapters are exercised through tokens whose message, footer and assertion have every length 0..700, with and without a payload-encoding suffix in the fragmented header piece, on a fresh thread state and after rejected operations on the same thread: the tag / signature must be the one over the reference PAE (bit-exact token, independent verifier, sibling acceptance). Non-trivial iff >= 2 pieces with a multi-fragment piece, or a boundary-shift pair was checked",
+        rule: "proptest cases: piece count 0..8 (one const-generic instantiation per N) x 0..4 fragments per piece x fragment lengths 0..600; oracle: output equals the reference PAE of the concatenated pieces, the reference PAE parser recovers exactly the piece list (injectivity), a recording streaming writer and the &mut adapter receive the same bytes, re-fragmenting does not change the output, and moving 1-3 bytes across a piece boundary always changes it; pieces of 2^31-1 .. 2^32+7 bytes (thorough 2^33+3), streamed as thousands of fragments of one buffer into a counting writer, carry their true 64-bit length and the stream has the prescribed total length; the back ends' private digest / MAC / signature writer adapters are exercised through tokens whose message, footer and assertion have every length 0..700, with and without a payload-encoding suffix in the fragmented header piece, on a fresh thread state and after rejected operations on the same thread: the tag / signature must be the one over the reference PAE (bit-exact token, independent verifier, sibling acceptance); end to end on every back end (also the versions without implicit assertions, which must refuse one rather than fold it into another piece): a token sealed for (footer F of 0..11 bytes, assertion A of 0..7 bytes) is accepted for no other split (F', A') of the byte string F || A. Non-trivial iff >= 2 pieces with a multi-fragment piece, or a boundary-shift pair was checked",
         assumptions: vec!["the back ends' writer adapters are private: they are observed through the MAC / signature they produce"],
         subs,
     }
